@@ -353,11 +353,6 @@ def host_compiler(ck, texts, batch=400, workers=4):
 
 # ----------------------------------------------------------------------------------------------- corpus
 
-def T(s):
-    """tiny parser for corpus entries written as prefix token strings"""
-    return s
-
-
 CORPUS_EXPRS = [
     # (prefix form, text)  — ledger defects first (each is a one-line history)
     ("b:&& L:0 p b:/ L:1 L:0", "0 && (1 / 0)"),                       # F18
@@ -426,8 +421,8 @@ def gen_P(r):
         if "_" in sign and f[-1] not in "fF":
             sign = sign[0]      # "- 1.5": occa::parseDouble returns an uninitialised double when sscanf fails
         return "P " + sign + f  # (reported by the JSON property's owner); not generated: not deterministic
-    return "P " + sign + r.choice(["true", "false", "0x", "0b", "0b2", "x", "", "1e", "1.5e+", "08", "0x1G", "1uu", "1lll", "1ulu"]) \
-        if False else "P " + sign + r.choice(["true", "false", "0x", "0b2", "x1", "1e", "08", "0x1G", "1uu", "1lll", "1ulu", "1.5.2"])
+    # malformed / odd texts: load must behave like the model (no claim about C++ here)
+    return "P " + sign + r.choice(["true", "false", "0x", "0b2", "x1", "1e", "08", "0x1G", "1uu", "1lll", "1ulu", "1.5.2"])
 
 
 # ----------------------------------------------------------------------------------------------- shrinking inside an expression
